@@ -33,6 +33,7 @@ func ruleFanout(r *Run, p *Prog, name string) {
 	if !r.Anchor(f != nil, "FANOUT", "multiLevelWriter."+name) {
 		return
 	}
+	f = p.View(f, "", nil)
 	fn := FnName(f)
 	// the destination call
 	var call *ssa.Call
@@ -77,28 +78,8 @@ func ruleFanout(r *Run, p *Prog, name string) {
 	}
 	r.Ob("FANOUT", fn+"/no-early-exit", p.Pos(hdr.Instrs[0].Pos()), okExit, true, tern(okExit, "the loop over the destinations can only end by exhaustion", "the loop over the destinations has an early exit (break/return): later destinations miss the event when an earlier one fails"))
 	// the loop ranges over the whole receiver slice: index phi from -1/0 step 1 against len(t.writers)
-	rangeOK := false
-	if ifi, ok := hdr.Instrs[len(hdr.Instrs)-1].(*ssa.If); ok {
-		if bo, ok := ifi.Cond.(*ssa.BinOp); ok && bo.Op == token.LSS {
-			if lc, ok := bo.Y.(*ssa.Call); ok && builtinName(&lc.Call) == "len" {
-				if isFieldOfParam(lc.Call.Args[0], f, 0, "writers") {
-					if inc, ok := bo.X.(*ssa.BinOp); ok && inc.Op == token.ADD {
-						if one, ok := constInt(inc.Y); ok && one == 1 {
-							if ph, ok := inc.X.(*ssa.Phi); ok {
-								for k, e := range ph.Edges {
-									if !hdr.Dominates(hdr.Preds[k]) {
-										if v, ok := constInt(e); ok && v == -1 {
-											rangeOK = true
-										}
-									}
-								}
-							}
-						}
-					}
-				}
-			}
-		}
-	}
+	facts, _ := analyseRangeLoop(f, call, call.Call.Value, func(v ssa.Value) bool { return isFieldOfParam(v, f, 0, "writers") })
+	rangeOK := facts.RangeAll && facts.Hdr == hdr
 	r.Ob("FANOUT", fn+"/range-all", p.Pos(hdr.Instrs[0].Pos()), rangeOK, true, tern(rangeOK, "the loop visits t.writers[0..len)", "the loop does not range over all of t.writers from the first element"))
 	// (2) exactly one call per iteration, on the element of this iteration
 	paths, complete := loopIterPaths(hdr, 2000)
@@ -135,16 +116,7 @@ func ruleFanout(r *Run, p *Prog, name string) {
 	}
 	r.Ob("FANOUT", fn+"/same-operands", p.Pos(call.Pos()), okArgs, true, tern(okArgs, "every destination receives the function's own parameters (identical bytes and level)", "a destination receives "+descrArgs(call)+" instead of the unmodified parameters"))
 	// receiver of the call is the element of this iteration
-	elemOK := false
-	if u, ok := call.Call.Value.(*ssa.UnOp); ok && u.Op == token.MUL {
-		if ia, ok := u.X.(*ssa.IndexAddr); ok {
-			if isFieldOfParam(ia.X, f, 0, "writers") {
-				if inc, ok := ia.Index.(*ssa.BinOp); ok && inc.Op == token.ADD && inc.Block() == hdr {
-					elemOK = true
-				}
-			}
-		}
-	}
+	elemOK := facts.Element
 	r.Ob("FANOUT", fn+"/element", p.Pos(call.Pos()), elemOK, true, tern(elemOK, "the call goes to t.writers[i]", "the destination call does not go to the current element of t.writers"))
 	// (4) first failure wins
 	var errPhi *ssa.Phi
